@@ -219,6 +219,13 @@ func execute(t *testing.T, c Case, n int) (rr runResult) {
 			if cl != nil {
 				cl.Peer.Close()
 			}
+			if w.Dns != nil {
+				// the server ends its side of every tunnel session (what it does when its multiplexer
+				// session ends): the client learns of it from the answer to its next poll
+				for _, sc := range w.Dns.ServerConns {
+					sc.Close()
+				}
+			}
 		case "cut-eof":
 			if cl != nil {
 				cl.Cut(true, false)
@@ -316,7 +323,7 @@ func cases(_ bool) []Case {
 	for _, carrier := range []string{"stream", "ws", "stdio", "dns"} {
 		endings := []string{"client-shutdown", "server-close", "cut-eof", "cut-reset", "cut-timeout", "garbage", "silence"}
 		if carrier == "dns" {
-			endings = []string{"client-shutdown", "silence"}
+			endings = []string{"client-shutdown", "silence", "server-close"}
 		}
 		if carrier == "stdio" {
 			endings = []string{"client-shutdown"}
